@@ -93,6 +93,48 @@ def _block(idx):
     return None
 
 
+MAYCOPY = {'reshape', 'contiguous', 'clone', 'flatten', 'to', 'float', 'double', 'type', 'cpu', 'cuda', 'repeat', 'expand_as_copy', 'index_select', 'masked_select'}
+
+
+def _maycopy_writes(m):
+    """sources of in-place writes (x.op_(..), x[..] = ..) whose destination reaches the tensor parameter only through a possibly-copying method"""
+    me = m.pos_params[1] if len(m.pos_params) > 1 else None
+    defs = {}
+    for n in ast.walk(m.node):
+        if isinstance(n, ast.Assign) and len(n.targets) == 1 and isinstance(n.targets[0], ast.Name):
+            defs[n.targets[0].id] = n.value
+    out = []
+
+    def chain_has_copy(e, depth=0):
+        while depth < 8:
+            depth += 1
+            if isinstance(e, ast.Call) and isinstance(e.func, ast.Attribute):
+                if e.func.attr in MAYCOPY:
+                    return src(e)[:40]
+                e = e.func.value
+            elif isinstance(e, (ast.Attribute, ast.Subscript)):
+                e = e.value
+            elif isinstance(e, ast.Name) and e.id in defs and e.id != me:
+                e = defs[e.id]
+            else:
+                return None
+        return None
+    for n in ast.walk(m.node):
+        dest = None
+        if isinstance(n, ast.Call) and isinstance(n.func, ast.Attribute) and n.func.attr.endswith('_') and not n.func.attr.startswith('_'):
+            dest = n.func.value
+        elif isinstance(n, (ast.Assign, ast.AugAssign)):
+            tg = n.targets if isinstance(n, ast.Assign) else [n.target]
+            for t in tg:
+                if isinstance(t, ast.Subscript):
+                    dest = t.value
+        if dest is not None:
+            c = chain_has_copy(dest)
+            if c:
+                out.append(c)
+    return out
+
+
 def _identity_pattern(m, dim, on_manifold):
     """what an identity_ implementation leaves in a tensor of last dimension `dim`: 'identity()' (copy of cls.identity(...)), a list of floats, or None"""
     me = m.pos_params[1] if len(m.pos_params) > 1 else None
@@ -202,6 +244,13 @@ def rule_id(repo):
         res.inst({'class': ci.fq, 'identity_ resolves to': m.fq, 'writes': pat if pat != 'identity()' else 'a copy of cls.identity()', 'expected': want}, (ci.fq, 'identity_pattern'))
         if pat is None:
             if len(m.node.body) and isinstance(m.node.body[-1], ast.Raise):
+                continue
+            # not one of the two readable forms: at least every in-place write must land in X itself - a write through reshape / contiguous / clone / to
+            # (which return a COPY for some layouts) leaves X unchanged
+            maycopy = _maycopy_writes(m)
+            if maycopy:
+                res.add(Finding('C03.ID', m, 'identity_ of %s (%s) writes through `%s`, which is a copy of X for layouts whose batch dimensions cannot be merged (expanded / '
+                                'transposed / sliced tensors): X is silently left unchanged' % (T, m.fq, maycopy[0]), construct='identity_ writes into a possible copy|' + T))
                 continue
             raise AnalysisError('C03.ID: cannot read what %s writes' % m.fq)
         if pat != 'identity()' and pat != want:
@@ -496,4 +545,4 @@ def rules(repo, tier):
                                                       'before it is complete - a later call with the same object and other contents must not be answered from it',
                                                       ['pypose.lietensor.lietensor', 'pypose.lietensor.operation', 'pypose.lietensor.basics', 'pypose.lietensor.utils'], floor=3),
             rule_optional(repo, 'C03.OPT', ['pypose.lietensor.lietensor', 'pypose.lietensor.operation', 'pypose.lietensor.basics', 'pypose.lietensor.utils'])] + mode_rules(repo, 'C03', ['pypose.lietensor.lietensor', 'pypose.lietensor.operation', 'pypose.lietensor.basics', 'pypose.lietensor.utils']) + [rule_callsig(repo, 'C03.SIG', ['pypose.lietensor.lietensor', 'pypose.lietensor.operation', 'pypose.lietensor.basics', 'pypose.lietensor.utils']), rule_docsig(repo, 'C03.DOC', ['pypose.lietensor.lietensor', 'pypose.lietensor.operation', 'pypose.lietensor.basics', 'pypose.lietensor.utils'])] + [
-            rule_axisdefault(repo, 'C03.AXDEF', ['pypose.lietensor.lietensor', 'pypose.lietensor.operation', 'pypose.lietensor.basics', 'pypose.lietensor.utils', 'pypose.lietensor.convert', 'pypose.basics.ops']), __import__('sa.axisdefault', fromlist=['x']).rule_frontaxis(repo, 'C03.BAX', ['pypose.lietensor.lietensor', 'pypose.lietensor.operation', 'pypose.lietensor.basics', 'pypose.lietensor.utils', 'pypose.lietensor.convert'])]
+            rule_axisdefault(repo, 'C03.AXDEF', ['pypose.lietensor.lietensor', 'pypose.lietensor.operation', 'pypose.lietensor.basics', 'pypose.lietensor.utils', 'pypose.lietensor.convert', 'pypose.basics.ops']), __import__('sa.axisdefault', fromlist=['x']).rule_frontaxis(repo, 'C03.BAX', ['pypose.lietensor.lietensor', 'pypose.lietensor.operation', 'pypose.lietensor.basics', 'pypose.lietensor.utils', 'pypose.lietensor.convert']), __import__('sa.axisdefault', fromlist=['x']).rule_batchbranch(repo, 'C03.BIF', ['pypose.lietensor.lietensor', 'pypose.lietensor.operation', 'pypose.lietensor.basics', 'pypose.basics.ops'])]
